@@ -2,7 +2,7 @@ package messagequeue
 
 // Bounded stand-in for property C35 (labelled bounded; never counted as proved):
 // every sequence of 5 operations (thorough: 6, sampled) out of {want-block c, want-have c,
-// broadcast want-have c, cancel c (c in 2 CIDs), send one message} is applied to a message
+// broadcast want-have c, cancel c (c in 2 CIDs), want-block both, cancel both, send one message} is applied to a message
 // queue that is driven synchronously (extractOutgoingMessage / onSent / Reset, exactly what
 // sendMessage does), with a message size limit small enough to split messages, with and
 // without HAVE support. Every message produced is replayed onto an empty want-list of the
@@ -14,6 +14,7 @@ import (
 	"context"
 	"fmt"
 	"os"
+	"strings"
 	"testing"
 
 	pb "github.com/ipfs/boxo/bitswap/message/pb"
@@ -35,16 +36,19 @@ func TestVerifBoundedC35Convergence(t *testing.T) {
 	for i := range cs {
 		ops = append(ops, op{"block", i}, op{"have", i}, op{"bcast", i}, op{"cancel", i})
 	}
-	ops = append(ops, op{"send", 0})
+	// requests naming both CIDs at once: with the one-entry size limit their wants and cancels are
+	// split across several messages
+	ops = append(ops, op{"send", 0}, op{"blockall", 0}, op{"cancelall", 0})
 	seqLen, stride := 5, 1
 	if os.Getenv("VERIF_TIER") == "thorough" {
-		seqLen, stride = 6, 3
+		seqLen, stride = 6, 5
 	}
 	total := 1
 	for i := 0; i < seqLen; i++ {
 		total *= len(ops)
 	}
 	cases, fails := 0, 0
+	knownShape, otherShape := 0, 0
 	for _, supportsHave := range []bool{true, false} {
 		for _, maxSize := range []int{1, 1 << 20} {
 			for idx := 0; idx < total; idx += stride {
@@ -89,6 +93,16 @@ func TestVerifBoundedC35Convergence(t *testing.T) {
 						delete(wantBlock, o.c)
 						delete(wantHave, o.c)
 						delete(wantBcast, o.c)
+					case "blockall":
+						mq.AddWants(cs, nil)
+						wantBlock[0], wantBlock[1] = true, true
+					case "cancelall":
+						mq.AddCancels(cs)
+						for i := range cs {
+							delete(wantBlock, i)
+							delete(wantHave, i)
+							delete(wantBcast, i)
+						}
 					case "send":
 						send()
 					}
@@ -114,13 +128,34 @@ func TestVerifBoundedC35Convergence(t *testing.T) {
 					got, has := peerList[c]
 					if has != wanted {
 						bad = fmt.Sprintf("CID %d: at the peer=%v, still wanted by the client=%v", i, has, wanted)
+						// the recorded finding needs a cancel of this CID followed, with no message
+						// sent in between, by a new request for it (which drops the queued cancel)
+						me, all := fmt.Sprintf("%d", i), "all0"
+						cancelQueued := false
+						for _, tr := range trace {
+							switch {
+							case tr == "cancel"+me || tr == "cancel"+all:
+								cancelQueued = true
+							case tr == "send0":
+								cancelQueued = false
+							case cancelQueued && (tr == "block"+me || tr == "have"+me || tr == "bcast"+me || tr == "block"+all):
+								bad += " (queued cancel dropped by a new request before it was sent)"
+								cancelQueued = false
+							}
+						}
 					} else if wanted && got != want && !(got == pb.Message_Wantlist_Block && want == pb.Message_Wantlist_Have) {
 						bad = fmt.Sprintf("CID %d: the peer holds type %v, the strongest requested type is %v", i, got, want)
 					}
 				}
 				if bad != "" {
 					fails++
-					if fails <= 10 {
+					// failures of the recorded pattern must not crowd out a different one
+					if strings.Contains(bad, "queued cancel dropped") {
+						knownShape++
+					} else {
+						otherShape++
+					}
+					if (strings.Contains(bad, "queued cancel dropped") && knownShape <= 5) || (!strings.Contains(bad, "queued cancel dropped") && otherShape <= 10) {
 						fmt.Printf("VERIF-FAIL C35 [supportsHave=%v maxSize=%d %v]: %s\n", supportsHave, maxSize, trace, bad)
 					}
 				}
